@@ -354,9 +354,8 @@ pub fn simplify_bezpath(
             if let Some(last) = last_seg {
                 let last_tan = last.tangents().1;
                 let this_tan = seg.tangents().0;
-                if last_tan.cross(this_tan).abs()
-                    > last_tan.dot(this_tan).abs() * options.angle_thresh
-                {
+                // A reversal of direction (negative dot product) is a corner at any angle.
+                if last_tan.cross(this_tan).abs() > last_tan.dot(this_tan) * options.angle_thresh {
                     state.flush(accuracy, options);
                 }
             }
